@@ -31,6 +31,8 @@ def scen_menu(quick):
     menu.append(lambda: M.scenario('o6 <a>-<b>', [S('g <a> <b>')], [M.examples('e', [['a', 'b'], ['1', '2']]), M.examples('e', [['b', 'a'], ['1', '2'], ['2', '1']])], outline=True))
     # the same column name twice with different values: columns are applied in header order, so the first one wins
     menu.append(lambda: M.scenario('o7 <a>/<b>', [S('g <a>')], [M.examples('e', [['a', 'b', 'a'], ['1', '2', '3']])], outline=True))
+    # three tables whose headers go A, B, A: document order, not grouping by header
+    menu.append(lambda: M.scenario('o8 <a>', [S('g <a>')], [M.examples('e1', [['a'], ['1']]), M.examples('e2', [['b'], ['2']]), M.examples('e3', [['a'], ['3'], ['4']])], outline=True))
     if not quick:
         menu.append(lambda: M.scenario('o4 <a>', [S('g'), S('h <a>')], [A.ex('two-rows', True), A.ex('two-rows')], outline=True))
         menu.append(lambda: M.scenario('o5', [], [A.ex('no-table')], outline=True))
@@ -105,7 +107,7 @@ def check_ast(ast, acc, case):
     acc.outcomes[min(len(want), 9)] += 1
     acc.states.add(('pickles', min(len(want), 12)))
     acc.trans.add(tuple(len(w) for w in want)[:8])
-    for route, res in (('fresh compiler', got), ('compiler that compiled other documents before', P.compile_reused(ast))):
+    for route, res in P.routes(ast, got):
         if res[0] != 'ok':
             acc.violation('compile-exception', case, 'Compiler.compile (%s) raised %s' % (route, res[1]))
             return
